@@ -77,6 +77,11 @@ def _factories():
     F["Array"] = lambda: Array(Field("a", table=T1()), 2)
     F["Bracket"] = lambda: Bracket(Field("a", table=T1()) + 1)
     F["Negative"] = lambda: Negative(Field("a", table=T1()))
+    from pypika.clickhouse import array as ch_array, type_conversion as ch_conv
+    F["ch.HasAny"] = lambda: ch_array.HasAny(Field("a", table=T1()), Field("b", table=T2()))
+    F["ch.Length"] = lambda: ch_array.Length(Field("a", table=T1()))
+    F["ch.NotEmpty"] = lambda: ch_array.NotEmpty(Field("a", table=T1()))
+    F["ch.ToFixedString"] = lambda: ch_conv.ToFixedString(Field("a", table=T1()), 8)
     return F
 
 
